@@ -95,6 +95,20 @@ func (e *Exec) globalAddr(g *ssa.Global) Ptr {
 	if p, ok := e.globals[g]; ok {
 		return p
 	}
+	// harness packages: run the package initialiser (variable initialisers and
+	// init functions) once per path, skipping other packages' initialisers
+	if g.Pkg != nil && strings.HasPrefix(g.Pkg.Pkg.Path(), "verif/harness") && !e.pkgInited[g.Pkg] {
+		if e.pkgInited == nil {
+			e.pkgInited = map[*ssa.Package]bool{}
+		}
+		e.pkgInited[g.Pkg] = true
+		if initFn := g.Pkg.Func("init"); initFn != nil && initFn.Blocks != nil {
+			e.callSSA(initFn, nil, nil, nil)
+		}
+		if p, ok := e.globals[g]; ok {
+			return p
+		}
+	}
 	p := new(Value)
 	*p = e.initialGlobal(g)
 	e.globals[g] = p
@@ -594,6 +608,10 @@ func funcKey(f *ssa.Function) string {
 }
 
 func (e *Exec) callFunction(f *ssa.Function, args []Value, env []Value, caller *frame) Value {
+	if f.Name() == "init" && f.Synthetic != "" && f.Parent() == nil && len(args) == 0 {
+		// another package's initialiser, reached from a harness package's init: not run
+		return nil
+	}
 	key := funcKey(f)
 	if in, ok := intrinsics[key]; ok {
 		e.noteIntrinsic(key)
